@@ -30,7 +30,24 @@ func fixCL(m *gen.MsgSpec) {
 	}
 }
 
+// decoy: a value for a header that is NOT fingerprinted but looks like the text the character-class
+// parts are computed from (a via with a branch, a tag parameter, a call-id): it must not matter.
+func (b *builder) decoy() string {
+	switch b.r.Intn(4) {
+	case 0:
+		return "SIP/2.0/UDP " + b.g.Host() + ";branch=z9hG4bK" + b.r.Pick([]string{"", "-", "a.b", "x@y", "1:2"}) + strconv.Itoa(b.r.Intn(1<<30))
+	case 1:
+		return "<sip:d@" + b.g.Host() + ">;tag=" + b.r.Pick([]string{"", "a-", "b.c.", "q@r", "7:8_"}) + strconv.Itoa(b.r.Intn(1<<20))
+	case 2:
+		return b.r.Pick([]string{"", "a-b-", "c.d@", "e:f:", "0_1"}) + strconv.Itoa(b.r.Intn(1<<30)) + "@" + b.g.Host()
+	}
+	return "x;branch=" + b.r.Pick([]string{"z9hG4bK", "", "Z9HG4BK"}) + b.r.Pick([]string{"a.b", "c-d", "e@f", "g:h", "12"})
+}
+
 func (b *builder) otherHdr() gen.HdrSpec {
+	if b.r.Chance(1, 4) {
+		return plainHdr(b.r.Pick([]string{"X-Via", "Subject", "X-From", "X-Call-ID", "Vias", "Froms", "P-Charge-Info"}), b.decoy())
+	}
 	switch b.r.Intn(7) {
 	case 0:
 		return plainHdr("Expires", strconv.Itoa(b.r.Intn(7200)))
@@ -107,6 +124,9 @@ func (b *builder) variant(base gen.MsgSpec) (gen.MsgSpec, string) {
 				h := &m.Hdrs[i]
 				if h.Kind == "" {
 					h.Val = b.g.Generic()
+					if b.r.Chance(1, 3) {
+						h.Val = b.decoy()
+					}
 				} else if h.Kind == "expires" {
 					h.Val = strconv.Itoa(b.r.Intn(100000))
 				}
@@ -211,6 +231,7 @@ func (b *builder) buildC19() {
 	o := gen.MsgOpts{Request: 1, CL: gen.CLExact, BodyMax: 80, MaxHdrs: b.r.PickInt(0, 0, 6, 12), ForceMethod: method, ValidStatus: true, Canonical: true}
 	if b.r.Chance(1, 12) {
 		o.Request = 0 // replies: no signature
+		o.VerCase = true
 	}
 	base := b.g.Msg(o)
 	if base.Blank == "\r" && len(base.Body) == 0 {
